@@ -89,7 +89,11 @@ def generate(rng, tier):
                     if kind == "nearname" and len(nm_i) < 2: continue
                     if kind == "casename" and nm_i.swapcase() == nm_i: continue
                     ev = nom[:i] + repl + nom[i + 1:]
-                    add([c, S.random_call(rng)], [ev, S.nominal(("status",), rng)], "%s@%d/%s" % (kind, i, m))
+                    # whatever the disturbance and wherever it falls, the request fails in the documented way (R / RB / BL and the
+                    # reboot-class methods ignore I/O faults and are not judged here)
+                    tnm0 = c[1].strip().upper() if c[0] in ("command", "query") and isinstance(c[1], str) else ""
+                    unjudged = c[0] in ("reboot", "bootload") or tnm0 in ("R", "RB", "BL")
+                    add([c, S.random_call(rng)], [ev, S.nominal(("status",), rng)], "%s@%d/%s" % (kind, i, m), None if unjudged else ["FAIL", "SKIP"])
                 if isinstance(nom[i], tuple) or i == 0:
                     # the same request was answered properly a moment ago, and now the board stays silent (or the link drops) at this
                     # exchange: the earlier reply must not stand in for the missing one
